@@ -6,6 +6,9 @@ import DryocVerif.Proofs.GenPoly1305
 import DryocVerif.Proofs.GenSipHash
 import DryocVerif.Proofs.GenCore
 import DryocVerif.Proofs.GenBlake2b
+import DryocVerif.Proofs.OnetimeAuth
+import DryocVerif.Proofs.Poly1305Extra
+import DryocVerif.Proofs.Blake2bExtra
 /-
 C07 — hash, MAC and core primitives equal their specifications on every input.
 Property theorems only; helper lemmas live in `DryocVerif/Proofs`.
@@ -94,10 +97,170 @@ theorem poly1305_finish_no_overflow (h : Model.Poly1305.Limbs) (hh : Proofs.Poly
     h2b < 2^64 ∧ m2 < 2^64 ∧ h0b < 2^64 ∧ h1b < 2^64 :=
   Proofs.Poly1305.finish_no_overflow h hh
 
-/-- verify accepts exactly the correct authenticator -/
+/-- `subtle`'s `ct_eq` on byte slices (length test, then the AND of the byte-wise
+`((x | x.wrapping_neg()) >> 7) ^ 1` with `x = a ^ b`) returns 1 exactly when the two slices are equal. -/
+theorem ct_eq_one_iff (a b : Bytes) : Model.OnetimeAuth.ctEq a b = 1 ↔ a = b :=
+  Proofs.OnetimeAuth.ctEq_one_iff a b
+
+/-- **`crypto_onetimeauth_verify` accepts exactly the correct authenticator.**  The model
+`Model.OnetimeAuth.onetimeauthVerify` follows the Rust: `Poly1305::new(key)`, `update(input)`,
+`finalize_to_array()`, then `mac.ct_eq(&computed_mac) == 1`.  It returns `Ok(())` iff `tag` is the RFC 8439
+authenticator of `msg` under `key` … -/
 theorem poly1305_verify_ok_iff (key msg tag : Bytes) (hk : key.length = 32) :
-    (tag = Model.Poly1305.mac key msg) ↔ tag = Spec.Poly1305.mac key msg := by
-  rw [poly1305_model_eq_spec key msg hk]
+    Model.OnetimeAuth.onetimeauthVerify key msg tag = .ok () ↔ tag = Spec.Poly1305.mac key msg :=
+  Proofs.OnetimeAuth.onetimeauthVerify_ok_iff key msg tag hk
+
+/-- … and `Err` for **every** other value (any 16-byte value, and — were it expressible in the Rust types, where
+`mac: &[u8; 16]` — any value of another length): there is no third outcome, in particular no panic. -/
+theorem poly1305_verify_err_iff (key msg tag : Bytes) (hk : key.length = 32) :
+    Model.OnetimeAuth.onetimeauthVerify key msg tag = .err ↔ tag ≠ Spec.Poly1305.mac key msg :=
+  Proofs.OnetimeAuth.onetimeauthVerify_err_iff key msg tag hk
+
+/-- the correct authenticator has 16 bytes, so a tag of any other length is rejected -/
+theorem poly1305_verify_wrong_length (key msg tag : Bytes) (hk : key.length = 32) (ht : tag.length ≠ 16) :
+    Model.OnetimeAuth.onetimeauthVerify key msg tag = .err := by
+  rw [poly1305_verify_err_iff key msg tag hk]
+  intro h; rw [h, Proofs.OnetimeAuth.spec_mac_length] at ht; exact ht rfl
+
+/-- **`OnetimeAuth::verify`** (streaming object: `new(key)`, any number of `update`s with any chunking, then
+`verify(tag)` = `finalize` + `ct_eq`) with a 16-byte tag returns `Ok(())` iff the tag is the RFC 8439 authenticator
+of the concatenation of the chunks. -/
+theorem poly1305_object_verify_ok_iff (key : Bytes) (hk : key.length = 32) (cs : List Bytes) (tag : Bytes)
+    (ht : tag.length = 16) :
+    Model.OnetimeAuth.objectVerifyChunks key cs tag = .ok () ↔ tag = Spec.Poly1305.mac key cs.flatten :=
+  Proofs.OnetimeAuth.objectVerifyChunks_ok_iff key hk cs tag ht
+
+/-- the same for a tag container whose length is not in its type (`Vec<u8>`, `&[u8]`: `ByteArray<16>::as_array`
+asserts `len >= 16` and views the FIRST 16 bytes): a shorter tag panics; a longer tag is accepted iff its first 16
+bytes are the authenticator — trailing bytes are ignored.  (Named difference to "accepts exactly the correct
+authenticator": for these containers it is "exactly the byte strings that START with it".) -/
+theorem poly1305_object_verify_cases (key : Bytes) (hk : key.length = 32) (cs : List Bytes) (tag : Bytes) :
+    (Model.OnetimeAuth.objectVerifyChunks key cs tag = .panic ↔ tag.length < 16) ∧
+    (Model.OnetimeAuth.objectVerifyChunks key cs tag = .ok () ↔
+      16 ≤ tag.length ∧ tag.take 16 = Spec.Poly1305.mac key cs.flatten) :=
+  Proofs.OnetimeAuth.objectVerifyChunks_cases key hk cs tag
+
+/-- `OnetimeAuth::compute_and_verify(other_mac, key, input)` likewise -/
+theorem poly1305_compute_and_verify_ok_iff (tag key msg : Bytes) (hk : key.length = 32) :
+    Model.OnetimeAuth.computeAndVerify tag key msg = .ok () ↔
+      16 ≤ tag.length ∧ tag.take 16 = Spec.Poly1305.mac key msg :=
+  Proofs.OnetimeAuth.computeAndVerify_ok_iff tag key msg hk
+
+/-- test (evaluated): the RFC 8439 §2.5.2 vector is accepted, the same tag with one bit flipped is rejected, a
+17-byte `Vec` starting with the tag is accepted by the object API, a 15-byte one panics -/
+example :
+    let key : Bytes := [0x85,0xd6,0xbe,0x78,0x57,0x55,0x6d,0x33,0x7f,0x44,0x52,0xfe,0x42,0xd5,0x06,0xa8,
+                        0x01,0x03,0x80,0x8a,0xfb,0x0d,0xb2,0xfd,0x4a,0xbf,0xf6,0xaf,0x41,0x49,0xf5,0x1b]
+    let msg : Bytes := "Cryptographic Forum Research Group".toUTF8.toList
+    let tag : Bytes := [0xa8,0x06,0x1d,0xc1,0x30,0x51,0x36,0xc6,0xc2,0x2b,0x8b,0xaf,0x0c,0x01,0x27,0xa9]
+    Model.OnetimeAuth.onetimeauthVerify key msg tag = .ok () ∧
+    Model.OnetimeAuth.onetimeauthVerify key msg (tag.set 3 0xc0) = .err ∧
+    Model.OnetimeAuth.objectVerifyChunks key [msg.take 5, [], msg.drop 5] (tag ++ [7]) = .ok () ∧
+    Model.OnetimeAuth.objectVerifyChunks key [msg] (tag.take 15) = .panic := by
+  decide +kernel
+
+/-! #### whole-run overflow freedom -/
+
+/-- the let-chain spelled out in `poly1305_block_no_overflow` IS the one `blockStep` (the loop body of
+`Poly1305::blocks`) computes: same intermediate values, and the three limbs it returns (`rfl`) -/
+theorem poly1305_block_chain_is_blockStep (r h : Model.Poly1305.Limbs) (hibit : Nat) (m : Bytes) :
+    let s1 := r.l1 * 20
+    let s2 := r.l2 * 20
+    let t0 := le (m.take 8)
+    let t1 := le ((m.drop 8).take 8)
+    let H0 := (h.l0 + (t0 &&& M44)) % U64
+    let H1 := (h.l1 + (((t0 >>> 44) ||| ((t1 <<< 20) % U64)) &&& M44)) % U64
+    let H2 := (h.l2 + (((t1 >>> 24) &&& M42) ||| hibit)) % U64
+    let d0 := H0 * r.l0 + H1 * s2 + H2 * s1
+    let d1 := H0 * r.l1 + H1 * r.l0 + H2 * s2
+    let d2 := H0 * r.l2 + H1 * r.l1 + H2 * r.l0
+    let c0 := (d0 >>> 44) % U64
+    let k0 := (d0 % U64) &&& M44
+    let d1' := d1 + c0
+    let c1 := (d1' >>> 44) % U64
+    let k1 := (d1' % U64) &&& M44
+    let d2' := d2 + c1
+    let c2 := (d2' >>> 42) % U64
+    let k0' := k0 + c2 * 5
+    let c3 := k0' >>> 44
+    Model.Poly1305.blockStep r hibit h m = ⟨k0' &&& M44, k1 + c3, (d2' % U64) &&& M42⟩ :=
+  Proofs.Poly1305.blockStep_chain_eq r h hibit m
+
+/-- the let-chain spelled out in `poly1305_finish_no_overflow` IS the prefix of `finish` (the arithmetic tail of
+`Poly1305::finalize`); what follows it (`selectP`, `addPadLimbs`, `pack`) uses `wrapping_*` in the Rust (`rfl`) -/
+theorem poly1305_finish_chain_is_finish (h : Model.Poly1305.Limbs) (pad0 pad1 : Nat) :
+    let h0 := h.l0
+    let h1 := h.l1
+    let h2 := h.l2
+    let c := h1 >>> 44
+    let h1 := h1 &&& M44
+    let h2a := h2 + c
+    let c := h2a >>> 42
+    let h2 := h2a &&& M42
+    let m1 := c * 5
+    let h0a := h0 + m1
+    let c := h0a >>> 44
+    let h0 := h0a &&& M44
+    let h1a := h1 + c
+    let c := h1a >>> 44
+    let h1 := h1a &&& M44
+    let h2b := h2 + c
+    let c := h2b >>> 42
+    let h2 := h2b &&& M42
+    let m2 := c * 5
+    let h0b := h0 + m2
+    let c := h0b >>> 44
+    let h0 := h0b &&& M44
+    let h1b := h1 + c
+    Model.Poly1305.finish h pad0 pad1 =
+      Proofs.Poly1305.pack (Proofs.Poly1305.addPadLimbs (Proofs.Poly1305.selectP ⟨h0, h1b, h2⟩) pad0 pad1) :=
+  Proofs.Poly1305.finish_chain_eq h pad0 pad1
+
+/-- **Whole-run overflow freedom (invariant form).**  Along `Poly1305::new(key); update(c₁); …; update(cₙ);
+finalize()` — any key, any chunks —: `r` is clamped (`RInv`); after every `update` the accumulator is in its
+inter-block range (`Inv`) and fewer than 16 bytes are buffered; the padded last block has 16 bytes; the accumulator
+handed to the carry passes of `finalize` satisfies `Inv` again, and the result is `finish` of it.  These are exactly
+the hypotheses of `poly1305_block_no_overflow` (per block, together with `poly1305_blocks_inv` inside one `update`)
+and `poly1305_finish_no_overflow`. -/
+theorem poly1305_run_no_overflow (key : Bytes) (cs : List Bytes) :
+    Proofs.Poly1305.RInv (Model.Poly1305.new key).r ∧
+    (∀ n, ((cs.take n).foldl Model.Poly1305.update (Model.Poly1305.new key)).r = (Model.Poly1305.new key).r ∧
+          Proofs.Poly1305.Inv ((cs.take n).foldl Model.Poly1305.update (Model.Poly1305.new key)).h ∧
+          ((cs.take n).foldl Model.Poly1305.update (Model.Poly1305.new key)).buffer.length < 16) ∧
+    ((cs.foldl Model.Poly1305.update (Model.Poly1305.new key)).buffer ≠ [] →
+      (Proofs.Poly1305.lastBlock (cs.foldl Model.Poly1305.update (Model.Poly1305.new key))).length = 16) ∧
+    Proofs.Poly1305.Inv (Proofs.Poly1305.finalAcc (cs.foldl Model.Poly1305.update (Model.Poly1305.new key))) ∧
+    Model.Poly1305.macChunks key cs =
+      Model.Poly1305.finish (Proofs.Poly1305.finalAcc (cs.foldl Model.Poly1305.update (Model.Poly1305.new key)))
+        (Model.Poly1305.new key).pad0 (Model.Poly1305.new key).pad1 :=
+  Proofs.Poly1305.run_no_overflow key cs
+
+/-- **Whole-run overflow freedom (checked-execution form).**  `Proofs.Poly1305.macChunksK` is the model's control
+flow (`updateK`, `blocksK`, `finalizeK` mirror `update`, `blocks`, `finalize` statement by statement) with EVERY
+overflow-checked operation guarded: in each loop iteration of `blocks` — in every `update` and in the final partial
+block — the chunk must have 16 bytes and the 22 range conditions of `poly1305_block_no_overflow` must hold
+(`BlockOk`), `BLOCK_SIZE - buffer.len()` must not underflow, and the 8 range conditions of
+`poly1305_finish_no_overflow` must hold (`FinishOk`); a failed guard gives `none`.  For every key and every chunk
+list the guarded run returns `some` of the model's result: no guard fails anywhere along the run. -/
+theorem poly1305_run_checked (key : Bytes) (cs : List Bytes) :
+    Proofs.Poly1305.macChunksK key cs = some (Model.Poly1305.macChunks key cs) :=
+  Proofs.Poly1305.macChunksK_eq key cs
+
+/-- one checked `update` from any state that satisfies the invariant (used at every step of the run) -/
+theorem poly1305_update_checked (st : Model.Poly1305.State) (c : Bytes) (hs : Proofs.Poly1305.Safe st) :
+    Proofs.Poly1305.updateK st c = some (Model.Poly1305.update st c) :=
+  Proofs.Poly1305.updateK_eq st c hs
+
+/-- non-vacuity witness for `poly1305_update_checked`: a state with a half-full buffer and maximal limbs -/
+example : Proofs.Poly1305.Safe ⟨⟨0xffc0fffffff, 0xfffffc0ffff, 0x00ffffffc0f⟩, ⟨2^44 - 1, 2^45 - 1, 2^42 - 1⟩, 0, 0,
+    [1, 2, 3, 4, 5, 6, 7, 8]⟩ := by
+  unfold Proofs.Poly1305.Safe Proofs.Poly1305.Inv Proofs.Poly1305.RInv; decide
+
+/-- the guards are not vacuous: from an accumulator OUTSIDE the invariant the guarded block step does fail (a `u64`
+carry operation overflows for these limbs), so `BlockOk` is a real condition and `Inv` is what keeps it true -/
+example : ¬ Proofs.Poly1305.BlockOk ⟨0xffc0fffffff, 0xfffffc0ffff, 0x00ffffffc0f⟩ (2^40)
+    ⟨4323438050089631744, 18446726481523507200, 18446739675663040511⟩ (List.replicate 16 0xff) := by
+  unfold Proofs.Poly1305.BlockOk; decide
 
 /-- non-vacuity: the hypotheses are met by a concrete state -/
 example : Proofs.Poly1305.Inv ⟨2^44 - 1, 2^45 - 1, 2^42 - 1⟩ ∧ Proofs.Poly1305.RInv ⟨0xffc0fffffff, 0xfffffc0ffff, 0x00ffffffc0f⟩ := by
@@ -179,6 +342,95 @@ theorem blake2b_compress_eq_spec (h : Array UInt64) (t0 t1 f0 f1 : UInt64) (bloc
     (hf0 : f0 = if last then 0xFFFFFFFFFFFFFFFF else 0) (hf1 : f1 = 0) :
     compress h t0 t1 f0 f1 block = Spec.Blake2b.compress h block T last :=
   Proofs.Blake2b.compress_eq_spec h t0 t1 f0 f1 block T last hh hb ht0 ht1 hf0 hf1
+
+/-- non-vacuity witness for `blake2b_compress_eq_spec`: the hypotheses `ht0` / `ht1` (the two counter words are
+the low / high halves of the 128-bit byte count `T`) are met by `T = 2^64 + 5`, `t0 = 5`, `t1 = 1` — a counter that
+has carried into the high word — on a real chaining value and block -/
+example : Model.Blake2b.compress Model.Blake2b.IV 5 1 0xFFFFFFFFFFFFFFFF 0 (zeros 128) =
+    Spec.Blake2b.compress Model.Blake2b.IV (zeros 128) (2^64 + 5) true :=
+  blake2b_compress_eq_spec Model.Blake2b.IV 5 1 0xFFFFFFFFFFFFFFFF 0 (zeros 128) (2^64 + 5) true rfl
+    (by simp [zeros]) (by decide) (by decide) rfl rfl
+
+/-! #### `State::update`: no slice or subtraction panic; `crypto_generichash`: `Err` exactly on invalid arguments -/
+
+open DryocVerif.Model.Blake2b in
+/-- `Proofs.Blake2b.updStart st` / `updEnd st input` are the two indices `start` / `end` that `State::update`
+computes, and the model's (totalised) `updateC` slices with exactly them (by unfolding) -/
+theorem blake2b_update_indices (C : Compress) (st : State) (input : Bytes) (h0 : input.length ≠ 0)
+    (h1 : ¬ input.length + st.buf.length ≤ BLOCKBYTES) :
+    updateC C st input =
+      { (chunksExact BLOCKBYTES (Model.Utils.slice input (Proofs.Blake2b.updStart st)
+            (Proofs.Blake2b.updEnd st input))).foldl (stepC C)
+          ((chunksExact BLOCKBYTES
+              (if st.buf.length ≠ 0 ∧ st.buf.length < BLOCKBYTES
+               then st.buf ++ Model.Utils.slice input 0 (Proofs.Blake2b.updStart st)
+               else st.buf)).foldl (stepC C) st)
+        with buf := Model.Utils.slice input (Proofs.Blake2b.updEnd st input) input.length } :=
+  Proofs.Blake2b.updateC_indices C st input h0 h1
+
+open DryocVerif.Model.Blake2b in
+/-- **no slice panic and no `usize` underflow in `State::update`.**  The model `updateC` is total (`slice`,
+truncated `-`); this is the missing obligation.  For a state reachable through `init` / `update` and any input that
+does not fit into the buffer: the buffer holds at most 128 bytes before and after the call;
+`start ≤ input.len()` (`input[..start]`, `input.len() - start`); `BLOCKBYTES - buf.len()` is evaluated only when
+`buf.len() < BLOCKBYTES`; `input.len() - BLOCKBYTES` and `input.len() - remaining % BLOCKBYTES` do not underflow in
+the branches that evaluate them; `start ≤ end ≤ input.len()` (`input[start..end]`, `input[end..]`); between 1 and
+128 bytes are left over and the compressed part `input[start..end]` is a whole number of blocks. -/
+theorem blake2b_update_slices_in_range (C : Compress) (st : State) (h : Proofs.Blake2b.Reachable C st)
+    (input : Bytes) (h1 : ¬ input.length + st.buf.length ≤ BLOCKBYTES) :
+    let start := Proofs.Blake2b.updStart st
+    let remaining := input.length - start
+    let end_ := Proofs.Blake2b.updEnd st input
+    (st.buf.length ≤ 128 ∧ (updateC C st input).buf.length ≤ 128) ∧
+    (st.buf.length ≠ 0 ∧ st.buf.length < BLOCKBYTES → st.buf.length ≤ BLOCKBYTES ∧ start ≤ input.length) ∧
+    start ≤ input.length ∧
+    (remaining > BLOCKBYTES ∧ remaining % BLOCKBYTES = 0 → BLOCKBYTES ≤ input.length) ∧
+    (remaining > BLOCKBYTES → remaining % BLOCKBYTES ≤ input.length) ∧
+    start ≤ end_ ∧ end_ ≤ input.length ∧
+    1 ≤ input.length - end_ ∧ input.length - end_ ≤ BLOCKBYTES ∧ (end_ - start) % BLOCKBYTES = 0 := by
+  have hb := Proofs.Blake2b.update_buf_le_128 C st h input
+  have h0 : input.length ≠ 0 := by
+    have := hb.1
+    simp only [BLOCKBYTES] at h1
+    omega
+  exact ⟨hb, Proofs.Blake2b.update_slices_in_range st input h0 h1⟩
+
+open DryocVerif.Model.Blake2b in
+/-- the index bounds do not even need reachability — they hold for ANY state and any non-empty input that takes
+the slicing branch (only the bound on the buffer does) -/
+theorem blake2b_update_slices_in_range_any (st : State) (input : Bytes) (h0 : input.length ≠ 0)
+    (h1 : ¬ input.length + st.buf.length ≤ BLOCKBYTES) :
+    Proofs.Blake2b.updStart st ≤ input.length ∧
+    Proofs.Blake2b.updStart st ≤ Proofs.Blake2b.updEnd st input ∧
+    Proofs.Blake2b.updEnd st input ≤ input.length :=
+  have h := Proofs.Blake2b.update_slices_in_range st input h0 h1
+  ⟨h.2.1, h.2.2.2.2.1, h.2.2.2.2.2.1⟩
+
+open DryocVerif.Model.Blake2b in
+/-- non-vacuity witness: a reachable state with 100 buffered bytes and a 300-byte input (does not fit): the indices
+are `start = 28`, `end = 284` -/
+example : ∃ st, Proofs.Blake2b.Reachable compress st ∧ ¬ (300 + st.buf.length ≤ BLOCKBYTES) ∧
+    Proofs.Blake2b.updStart st = 28 ∧ Proofs.Blake2b.updEnd st (zeros 300) = 284 := by
+  have hi := Proofs.Blake2b.initC_ok compress 32 none none none (by omega) (by intro k hk; cases hk)
+  refine ⟨updateC compress _ (zeros 100), .update _ (zeros 100) (.init 32 none none none _ hi), ?_⟩
+  have e : (updateC compress (Proofs.Blake2b.stateAfter compress (Proofs.Blake2b.initS0 32 none none none)
+      (Proofs.Blake2b.keyBlock none)) (zeros 100)).buf.length = 100 := by
+    rw [Proofs.Blake2b.updateC_stateAfter, Proofs.Blake2b.stateAfter_buf_length]
+    decide
+  have hz : (zeros 300).length = 300 := List.length_replicate
+  unfold Proofs.Blake2b.updEnd Proofs.Blake2b.updStart
+  rw [e, hz]
+  decide
+
+open DryocVerif.Model.Blake2b in
+/-- **`crypto_generichash(output, input, key)` returns `Err` exactly for the argument combinations the Rust
+rejects**: `output.len()` outside 16..=64, or a key whose length is outside 16..=64 (`Some(&[])` included); for
+all other arguments it returns `Ok` — and it never panics. -/
+theorem generichash_err_iff (outLen : Nat) (input : Bytes) (key : Option Bytes) :
+    (generichash outLen input key = .err ↔
+      (outLen < 16 ∨ 64 < outLen) ∨ ∃ k, key = some k ∧ (k.length < 16 ∨ 64 < k.length)) ∧
+    generichash outLen input key ≠ .panic :=
+  Proofs.Blake2b.generichash_err_iff outLen input key
 
 /-! ### HSalsa20 / HChaCha20 (`crypto_core_hsalsa20`, `crypto_core_hchacha20`) -/
 
@@ -273,6 +525,11 @@ hash → index-out-of-bounds panic.  Unreachable: every caller passes `&[u8; 32]
 theorem hmac_init_long_key_panics (H : Bytes → Bytes) (key : Bytes) (hk : key.length > 128)
     (hH : (H key).length = 64) : Model.Core.hmacInit H key = .panic :=
   Proofs.Core.hmacInit_long_key_panics H key hk hH
+
+/-- non-vacuity witness for `hmac_init_long_key_panics`: the hypothesis `hH` (the hash returns 64 bytes) holds for
+SHA-512 itself, here on a 129-byte key — the panic is real for the instantiated model -/
+example : Model.Core.hmacInit Spec.Sha512.sha512 (List.replicate 129 0) = .panic :=
+  hmac_init_long_key_panics Spec.Sha512.sha512 (List.replicate 129 0) (by simp) (by decide +kernel)
 
 /-- `crypto_auth_verify` accepts exactly the correct authenticator -/
 theorem hmac_verify_ok_iff (key msg mac : Bytes) (hk : key.length = 32) :
@@ -378,3 +635,23 @@ theorem translated_blake2b_increment_counter (t0 t1 : UInt64) (inc : Nat) :
   Proofs.GenBlake2b.increment_counter_eq_model t0 t1 inc
 
 end DryocVerif.Properties.C07
+
+section AxiomCheck
+open DryocVerif.Properties.C07
+#print axioms ct_eq_one_iff
+#print axioms poly1305_verify_ok_iff
+#print axioms poly1305_verify_err_iff
+#print axioms poly1305_verify_wrong_length
+#print axioms poly1305_object_verify_ok_iff
+#print axioms poly1305_object_verify_cases
+#print axioms poly1305_compute_and_verify_ok_iff
+#print axioms poly1305_block_chain_is_blockStep
+#print axioms poly1305_finish_chain_is_finish
+#print axioms poly1305_run_no_overflow
+#print axioms poly1305_run_checked
+#print axioms poly1305_update_checked
+#print axioms blake2b_update_indices
+#print axioms blake2b_update_slices_in_range
+#print axioms blake2b_update_slices_in_range_any
+#print axioms generichash_err_iff
+end AxiomCheck
